@@ -133,6 +133,20 @@ def configs(tier):
         if c['file_perms'] is None and c['body'] in ('one', 'big') and c['overwrite']:
             for op in (False, True):
                 out.append(dict(c, api='abandon_retry', overwrite_part=op))
+    # the save runs while another exception is being handled (an error report written from an `except:` block), and the
+    # saver object was built in this process but its with-block runs in a forked child (a pre-built saver handed to a
+    # worker): a normal exit of the body must publish in both
+    for c in base:
+        if c['file_perms'] is None and c['body'] in ('one', 'big') and c['overwrite']:
+            out.append(dict(c, api='inside_except'))
+            out.append(dict(c, api='fork_child'))
+    # two savers: B enters while A is leaving its with-block - after the k-th file-system event of A's exit (k beyond the
+    # last event = right after A's exit).  B may be refused at entry (A's part file is still there); if it is let in and
+    # its body ends normally, its save must complete and the destination must hold B's content
+    for c in base:
+        if c['file_perms'] is None and c['body'] == 'one' and not c['text_mode']:
+            for k in range(0, 8):
+                out.append(dict(c, interleaved=True, b_enters_after_exit_event=k))
     # two savers of one destination whose with-blocks overlap (the second one is refused, and retried)
     for c in base:
         if c['file_perms'] is None and c['body'] in ('one', 'big') and c['overwrite']:
@@ -209,6 +223,8 @@ class Scenario:
             if cfg.get('part_other_fs'):
                 kw['part_file'] = os.path.join(self.other_dir, 'elsewhere-%d.part' % os.getpid())
             env.decide({'name': 'checkpoint', 'key': ('before with',)})
+            if cfg.get('b_enters_after_exit_event') is not None:
+                return self.run_interleaved_exit(env, fileutils, kw)
             if cfg.get('interleaved'):
                 return self.run_interleaved(env, fileutils, kw)
             if self.api:
@@ -262,6 +278,31 @@ class Scenario:
             env.decide({'name': 'checkpoint', 'key': ('enter',)})
             self.do_plan(env, saver.part_file)
             saver.__exit__(None, None, None)
+        elif self.api == 'inside_except':
+            try:
+                raise RuntimeError('the error being reported')
+            except RuntimeError:
+                with saver as f:
+                    env.decide({'name': 'checkpoint', 'key': ('enter',)})
+                    self.do_plan(env, f)
+        elif self.api == 'fork_child':
+            env.decide({'name': 'checkpoint', 'key': ('before fork',)})
+            pid = os.fork()
+            if pid == 0:
+                code = 1
+                try:
+                    env.closed = True          # the child's file-system calls go straight to the OS
+                    with saver as f:
+                        for st in self.plan:
+                            if st[0] == 'write':
+                                f.write(st[1] if cfg['text_mode'] else st[1].encode('utf-8'))
+                    code = 0
+                finally:
+                    os._exit(code)
+            _, status = os.waitpid(pid, 0)
+            env.decide({'name': 'checkpoint', 'key': ('child done',)})
+            if os.waitstatus_to_exitcode(status) != 0:
+                return RuntimeError('the save raised in the forked child')
         elif self.api == 'abandon_retry':
             saver.setup()
             saver.part_file.write('GIVEN-UP-ATTEMPT ' if cfg['text_mode'] else b'GIVEN-UP-ATTEMPT ')
@@ -281,6 +322,51 @@ class Scenario:
             return None
         env.decide({'name': 'checkpoint', 'key': ('after with',)})
         return None
+
+    def run_interleaved_exit(self, env, fileutils, kw):
+        cfg = self.cfg
+        k = cfg['b_enters_after_exit_event']
+        text_a = ''.join(st[1] for st in self.plan if st[0] == 'write').encode('utf-8')
+        A, B = fileutils.atomic_save(self.dest, **kw), fileutils.atomic_save(self.dest, **kw)
+        st = {'n': None, 'fb': None, 'refused': None, 'done': False}
+
+        def b_enters():
+            st['done'] = True
+            try:
+                st['fb'] = B.__enter__()
+            except OSError as e:
+                st['refused'] = e
+
+        def hook(env_, phase, ev):
+            if phase != 'after' or st['n'] is None or st['done'] or ev['name'] in ('checkpoint', 'fdopen'):
+                return
+            st['n'] += 1
+            if st['n'] == k + 1:
+                b_enters()
+        fa = A.__enter__()
+        fa.write(text_a)
+        env.hooks.append(hook)
+        st['n'] = 0
+        err = None
+        try:
+            A.__exit__(None, None, None)
+        except OSError as e:
+            err = e
+        finally:
+            env.hooks.remove(hook)
+        if not st['done']:
+            b_enters()
+        env.decide({'name': 'checkpoint', 'key': ('A done',)})
+        self.expect_final = self.new
+        if st['fb'] is not None:
+            st['fb'].write(self.new_b)
+            try:
+                B.__exit__(None, None, None)
+                self.expect_final = self.new_b
+            except OSError as e:
+                err = err or RuntimeError('the second saver was let in, its body ended normally, its save raised %r' % (e,))
+        env.decide({'name': 'checkpoint', 'key': ('after with',)})
+        return err
 
     def run_interleaved(self, env, fileutils, kw):
         """Saver A is inside its with-block when saver B tries to save the same destination (B must be refused: the part
@@ -455,8 +541,9 @@ def durable_states(log, k, sc):
 
 
 def check_log_order(log, sc, bad, exc=None, _second=False):
-    if sc.cfg.get('interleaved') or sc.cfg.get('part_other_fs'):
-        return          # two savers / a foreign part path: the single-save ordering rules below do not apply
+    if sc.cfg.get('interleaved') or sc.cfg.get('part_other_fs') or sc.api == 'fork_child':
+        return          # two savers / a foreign part path / a save whose events happen in a child process: the
+        # single-save ordering rules below do not apply
     if sc.api == 'reuse' and not _second:
         # two saves in a row: the single-save rules apply to the events after the first save's publication
         for i, ev in enumerate(log):
@@ -582,7 +669,9 @@ def run_config(task):
     elif exc is not None:
         bad('normal', 'save raised', 'no exception', repr(exc))
     else:
-        if fdest != sc.news[0] and not (cfg.get('interleaved') and fdest in sc.news):
+        if getattr(sc, 'expect_final', None) is not None and fdest != sc.expect_final:
+            bad('normal', 'destination content after both savers finished', sc.expect_final[:60], fdest)
+        elif fdest != sc.news[0] and not (cfg.get('interleaved') and fdest in sc.news):
             bad('normal', 'destination content after normal exit', sc.news[0][:60], fdest)
         left = sorted(k for k in final if k != sc.name and k != SNAPSHOT)
         if left:
